@@ -259,6 +259,26 @@ func c09Check(w *World) []Violation {
 		}
 		return false
 	}
+	// "Completed only when none is alive and being terminated": a terminal state is not published while the
+	// configured stop command of the process is still at work (for a daemon that command is all there is to see)
+	{
+		running := map[string]bool{} // stop commands asked for and not yet answered, by process name
+		for _, e := range tr {
+			switch {
+			case e.Kind == "aux-req" && strings.HasPrefix(e.Proc, "aux:stop"):
+				if i := strings.LastIndex(e.Proc, "-"); i >= 0 {
+					running[e.Proc[i+1:]] = true
+				}
+			case e.Kind == "aux-ans" && strings.HasPrefix(e.Proc, "aux:stop"):
+				if i := strings.LastIndex(e.Proc, "-"); i >= 0 {
+					delete(running, e.Proc[i+1:])
+				}
+			case e.Kind == "state" && running[e.Proc] && (e.Data == "Completed" || e.Data == "Error" || e.Data == "Skipped"):
+				vs = append(vs, viol("C09", "terminal-while-stopping:"+e.Data, "process %s is reported %s while its shutdown command is still running (t=%v)", e.Proc, e.Data, e.T))
+				delete(running, e.Proc)
+			}
+		}
+	}
 	snaps := append([]Snapshot(nil), w.Snapshots...)
 	if w.Final != nil {
 		snaps = append(snaps, *w.Final)
